@@ -1,8 +1,10 @@
 package plugin
 
 import (
+	"fmt"
 	"math/rand"
 	"strings"
+	"sync"
 	"time"
 
 	"gxverif/hx"
@@ -20,7 +22,7 @@ func Exhaustive(e *hx.Env, prop string, mon Monitor, depth int, budgetSec int) *
 		Pools: []Pool{{NodeSubnets: []Subnet{subnetPalette[0]}, Ranges: [][2]uint32{{0x0a0a0002, 0x0a0a0003}},
 			Gateway: 0x0a0a0001, Bits: 24, Vlan: 0}},
 		Nodes: []Node{{"n1", 0x0a090105}}}
-	prelude := []string{"app scale sts ns1 a 2", "sync all", "filter ns1 a-0 n1 ? ? 0"} // the filter warms the node cache
+	prelude := []string{"app scale sts ns1 a 2", "sync all"}
 	alphabet := [][]string{
 		{"pod create ns1 a-0 sts a ~ 1 - 1"},
 		{"pod create ns1 a-1 sts a ~ 0 - 1"},
@@ -41,9 +43,13 @@ func Exhaustive(e *hx.Env, prop string, mon Monitor, depth int, budgetSec int) *
 	}
 	deadline := time.Now().Add(time.Duration(budgetSec) * time.Second)
 	type node struct{ path []int }
-	seen := map[string]bool{}
-	frontier := []node{{nil}}
-	expand := func(path []int) (*Transcript, string) {
+	type result struct {
+		t   *Transcript
+		key string
+		dis *hx.Disagreement
+		err error
+	}
+	expand := func(path []int) result {
 		var ops []string
 		ops = append(ops, prelude...)
 		for _, a := range path {
@@ -66,57 +72,94 @@ func Exhaustive(e *hx.Env, prop string, mon Monitor, depth int, budgetSec int) *
 		}
 		t, w, err := Execute(conf, rand.New(rand.NewSource(1)), script, mon, len(ops)+1)
 		if err != nil {
-			b.Errors = append(b.Errors, err.Error())
-			return nil, ""
+			return result{err: err}
 		}
-		return t, w.Digest() + "#" + w.ViewDigest()
+		r := result{t: t, key: w.Digest() + "#" + w.ViewDigest()}
+		if len(t.Violations) == 0 && t.Hang == "" {
+			r.dis, r.err = Compare(e, t)
+		}
+		return r
 	}
-	states := 0
+	seen := map[string]bool{}
+	perSig := map[string]int{}
+	frontier := []node{{nil}}
+	states, complete := 0, -1
 	for d := 0; d <= depth && len(frontier) > 0; d++ {
-		var next []node
-		for _, n := range frontier {
+		results := make([]result, len(frontier))
+		var wg sync.WaitGroup
+		sem := make(chan struct{}, 32)
+		timedOut := false
+		for i := range frontier {
 			if time.Now().After(deadline) {
-				b.HistoryFlags["exhaustive-budget-exhausted"] = 1
+				timedOut = true
 				break
 			}
-			t, key := expand(n.path)
-			if t == nil {
+			wg.Add(1)
+			sem <- struct{}{}
+			go func(i int) {
+				defer wg.Done()
+				defer func() { <-sem }()
+				results[i] = expand(frontier[i].path)
+			}(i)
+		}
+		wg.Wait()
+		var next []node
+		for i, r := range results {
+			if r.t == nil {
+				if r.err != nil {
+					b.Errors = append(b.Errors, r.err.Error())
+				}
 				continue
 			}
+			t := r.t
 			b.Histories++
 			b.Ops += len(t.Ops) - 1
 			if len(t.Violations) > 0 || t.Hang != "" {
 				for _, v := range t.Violations {
-					v.Replay = e.WriteReplay(prop, "history", "exh-"+sanitize(v.Signature), []string{"signature=" + v.Signature, "what=" + v.What}, v.Ops)
+					perSig[v.Signature]++
+					if perSig[v.Signature] > 2 {
+						continue // one or two replays per kind of failure; the state is not expanded further
+					}
+					v.Replay = e.WriteReplay(prop, "history", fmt.Sprintf("exh-%s-%d", sanitize(v.Signature), perSig[v.Signature]),
+						[]string{"signature=" + v.Signature, "what=" + v.What}, v.Ops)
 					b.Violations = append(b.Violations, v)
+				}
+				if t.Hang != "" {
+					p := e.WriteReplay(prop, "history", "exh-hang", []string{"outcome=" + t.Hang}, t.Ops)
+					b.Violations = append(b.Violations, hx.Violation{Signature: "op-" + strings.Fields(t.Hang)[0], What: t.Hang, Replay: p})
 				}
 				continue
 			}
-			if seen[key] {
+			if seen[r.key] {
 				continue
 			}
-			seen[key] = true
+			seen[r.key] = true
 			states++
-			if dis, err := Compare(e, t); err != nil {
-				b.Errors = append(b.Errors, err.Error())
-			} else if dis != nil {
+			if r.err != nil {
+				b.Errors = append(b.Errors, r.err.Error())
+			} else if r.dis != nil {
+				dis := *r.dis
 				dis.Ops = t.Ops
-				dis.Replay = e.WriteReplay(prop, "history", "exh-disagree", []string{"where=" + dis.Where}, t.Ops)
-				b.Disagree = append(b.Disagree, *dis)
+				dis.Replay = e.WriteReplay(prop, "history", fmt.Sprintf("exh-disagree-%d", len(b.Disagree)), []string{"where=" + dis.Where}, t.Ops)
+				if len(b.Disagree) < 20 {
+					b.Disagree = append(b.Disagree, dis)
+				}
 			}
 			b.Nontrivial = append(b.Nontrivial, strings.Join(t.Ops, "\n"))
 			if d < depth {
 				for a := range alphabet {
-					next = append(next, node{append(append([]int(nil), n.path...), a)})
+					next = append(next, node{append(append([]int(nil), frontier[i].path...), a)})
 				}
 			}
 		}
-		frontier = next
-		if len(b.Violations) > 3 {
+		if timedOut {
+			b.HistoryFlags["exhaustive-budget-exhausted-at-depth"] = d
 			break
 		}
+		complete = d
+		frontier = next
 	}
 	b.HistoryFlags["exhaustive-states"] = states
-	b.HistoryFlags["exhaustive-depth"] = depth
+	b.HistoryFlags["exhaustive-depth-completed"] = complete
 	return b
 }
